@@ -74,6 +74,12 @@ func (c16) NumCases(tier string) int {
 	return 1 + l.exh*len(c16Settings) + l.exhAcc*len(c16AccIdx) + l.random
 }
 func (c16) Exhaustive(tier string) bool { return true }
+func (c16) ExhaustiveScope(tier string) string {
+	if tier == "thorough" {
+		return "every call sequence of length 1..5 over {Write(empty), Write(small), Write(large), Flush, Close, Reset} for each of the 15 settings, and of length 6 for the 7 accelerated flate settings, at every level run; longer sequences are seeded samples"
+	}
+	return "every call sequence of length 1..4 over {Write(empty), Write(small), Write(large), Flush, Close, Reset} (1554 sequences) for each of the 15 settings at every level run; longer sequences are seeded samples"
+}
 func (c16) Plan(tier string) []mon.RunSpec {
 	return []mon.RunSpec{{Flavour: "plain"}, {Flavour: "checkptr", Every: 4}}
 }
